@@ -49,9 +49,15 @@ def _layer(H, kind, n_in, n_w, per_channel, bias, cin, cout, gumbel=False):
     return layer, in_q, out_q, w_q
 
 
-def _set_alphas(H, q, tag, shape):
+def _set_alphas(H, q, tag, shape, split=False):
     a = H.tensor(tag, shape)                 # any real coefficients, ties included
     H.set_(q.alpha, a)
+    if split and len(shape) == 1:
+        # case split on the (first) maximal coefficient: one path per selected alternative, on which the arg-max is concrete
+        vals = H.elements(a)
+        for i in range(len(vals)):
+            if H.branch(_is_max(H, vals, i)):
+                break
     return a
 
 
@@ -165,13 +171,13 @@ def h_export_equiv(H, kind, n_in, n_w, bias, gumbel=False):
         H.set_(layer.weight, H.tensor('weight', H.shape(layer.weight)))
         if bias:
             H.set_(layer.bias, H.tensor('bias', (cout,)))
-        _set_alphas(H, in_q, 'in_alpha', (n_in,))
-        _set_alphas(H, w_q, 'w_alpha', (n_w,))
+        _set_alphas(H, in_q, 'in_alpha', (n_in,), True)
+        _set_alphas(H, w_q, 'w_alpha', (n_w,), True)
         for q in in_q.qtz_funcs:
             cv = H.tensor('in_clip_%d' % q.precision, (1,))
             H.assume(H.and_(H.ge(cv, 0.05), H.le(cv, 1000)))
             H.set_(q.clip_val, cv)
-    _set_alphas(H, out_q, 'out_alpha', (len(out_q.qtz_funcs),))
+    _set_alphas(H, out_q, 'out_alpha', (len(out_q.qtz_funcs),), True)
     for q in out_q.qtz_funcs:
         cv = H.tensor('out_clip_%d' % q.precision, (1,))
         H.assume(H.and_(H.ge(cv, 0.05), H.le(cv, 1000)))
